@@ -28,8 +28,16 @@ func sameEntry(a, b ssa.Value) bool {
 	if a == b {
 		return true
 	}
-	ta, ok1 := a.(*ssa.TypeAssert)
-	tb, ok2 := b.(*ssa.TypeAssert)
+	unwrap := func(v ssa.Value) ssa.Value {
+		if ex, ok := v.(*ssa.Extract); ok && ex.Index == 0 {
+			if _, isTA := ex.Tuple.(*ssa.TypeAssert); isTA {
+				return ex.Tuple
+			}
+		}
+		return v
+	}
+	ta, ok1 := unwrap(a).(*ssa.TypeAssert)
+	tb, ok2 := unwrap(b).(*ssa.TypeAssert)
 	if !ok1 || !ok2 {
 		return false
 	}
